@@ -279,11 +279,129 @@ def injective_driver(pmap, tier, seed):
     return acc
 
 
+def run_atoms(shard):
+    """(a) every element x charge -4..+4 x radical x isotope as a one-atom molecule: attributes restored, distinct atoms never share a string;
+    (b) chains and multi-component molecules of up to 13 atoms with one or two radical / charged / labelled atoms at every position (indices of the
+    extension block reach two digits), canonical writer and every one-deviation traversal"""
+    from chython.periodictable import Element
+    k, nsh, tier = shard
+    acc = Acc()
+    table = {}
+    els = [Element.from_atomic_number(z) for z in range(1, 119)]
+    for zi, el in enumerate(els):
+        if zi % nsh != k:
+            continue
+        sym = el.__name__
+        for ch in range(-4, 5):
+            for rad in (False, True):
+                for isot in (None, 'ref'):
+                    try:
+                        iv = el().mdl_isotope + 1 if isot else None
+                    except Exception:
+                        iv = None
+                        if isot:
+                            continue
+                    spec = {'atoms': [(sym, ch, rad, iv)], 'bonds': [], 'tag': '[%s%s%+d%s]' % (iv or '', sym, ch, '*' if rad else '')}
+                    try:
+                        m = M.to_chython(spec)
+                    except Exception:
+                        acc.ood['atom cannot be built'] += 1
+                        continue
+                    acc.states += 1
+                    if m.check_valence():
+                        acc.ood['valence-invalid atom'] += 1
+                        continue
+                    a = m.atom(1)
+                    key = raw_atom(a)
+                    for opt in ('', 'h', 'A'):
+                        acc.transitions += 2
+                        text = format(m, opt) if opt else str(m)
+                        if opt == '':
+                            table.setdefault(text, set()).add(key)
+
+                        def bad(what, **d):
+                            acc.fail('%s :: %s' % (what, opt), mol=spec['tag'], atoms_stage=True, spec=[[list(a) for a in spec['atoms']], spec['bonds']], **d)
+                            acc.outcomes['FAIL ' + what] += 1
+                        compare_written(acc, m, text, [1], opt, bad, None)
+                    acc.outcomes['atom lossless'] += 1
+    # (b) positions
+    lengths = (11, 12, 13) if tier == 'quick' else (10, 11, 12, 13, 14)
+    jobs = []
+    for L in lengths:
+        for shape in ('chain', 'two chains', 'ions'):
+            for p in range(L):
+                for q in ([None] + list(range(p + 1, L)) if tier != 'quick' else [None, (p + 3) % L]):
+                    if q == p:
+                        continue
+                    jobs.append((L, shape, p, q))
+    for j, (L, shape, p, q) in enumerate(jobs):
+        if j % nsh != k:
+            continue
+        atoms = [['C', 0, False, None] for _ in range(L)]
+        if shape == 'chain':
+            bonds = [(i, i + 1, 1) for i in range(L - 1)]
+            atoms[0][0] = 'O'
+            atoms[L - 1][0] = 'N'
+        elif shape == 'two chains':
+            cut = L // 2
+            bonds = [(i, i + 1, 1) for i in range(L - 1) if i != cut - 1]
+            atoms[0][0] = 'O'
+        else:
+            bonds = [(i, i + 1, 1) for i in range(2, L - 1)]
+            atoms[0] = ['Na', 1, False, None]
+            atoms[1] = ['Cl', -1, False, None]
+        marks = [x for x in (p, q) if x is not None]
+        if any(atoms[x][0] in ('Na', 'Cl') for x in marks):
+            continue
+        for x in marks:
+            atoms[x][2] = True
+        spec = {'atoms': [tuple(a) for a in atoms], 'bonds': bonds, 'tag': '%s of %d atoms, radicals at %s' % (shape, L, marks)}
+        m = M.to_chython(spec)
+        if m.check_valence():
+            acc.ood['valence-invalid'] += 1
+            continue
+        acc.states += 1
+
+        def bad(what, **d):
+            acc.fail('%s :: %s' % (what, d.get('options', '')), mol=spec['tag'], atoms_stage=True, spec=[[list(a) for a in spec['atoms']], spec['bonds']], **d)
+            acc.outcomes['FAIL ' + what] += 1
+        for opt in ('', 'm'):
+            text, order = m.__format__(opt, _return_order=True)
+            full = format(m, opt) if opt else str(m)
+            compare_written(acc, m, full, list(order), opt, bad, None)
+            seen = {full}
+            for text, order, script in chooser.explore(m, opt + 'r', bound=1, limit=40):
+                full = chooser.run_full(m, opt + 'r', script)
+                if full in seen:
+                    continue
+                seen.add(full)
+                acc.states += 1
+                compare_written(acc, m, full, order, opt + 'r', lambda what, **d: bad(what, script=list(script), **d), None)
+        acc.outcomes['positions lossless'] += 1
+    return acc, table
+
+
+def atoms_driver(pmap, tier, seed):
+    acc = Acc()
+    merged = {}
+    for a, table in pmap(run_atoms, [(k, 32, tier) for k in range(32)]):
+        acc.merge(a)
+        for t, keys in table.items():
+            merged.setdefault(t, set()).update(keys)
+    for t, keys in merged.items():
+        if len(keys) > 1:
+            acc.fail('two different atoms receive the same canonical string', string=t, mol=t, atoms=sorted(map(repr, keys)))
+    acc.info['distinct one-atom strings'] = len(merged)
+    return acc
+
+
 def plan(tier, seed):
     return [Stage('small scope: options x all traversals', run_small, [(k, 64, tier) for k in range(64)],
                   'D(<=5,%d) x option subsets of {a,A,m,h} x canonical + every traversal of the random writer' % (1 if tier == 'quick' else 2)),
             Stage('stereo / radical / multi-component families + corpus', run_text, [(k, 64, tier) for k in range(64)],
                   'text families (all traversals <=7 atoms, <=2 deviations <=9 atoms, <=1 above) + corpus stride %d' % (32 if tier == 'quick' else 4)),
+            Stage('bracket atoms and extension-block positions', atoms_driver, None,
+                  '118 elements x charge -4..+4 x radical x {no isotope, reference+1} as one-atom molecules (valence-valid ones): restored, pairwise distinct strings; chains / two chains / ion pair + chain of %s atoms with one or two radical atoms at every position x canonical + one-deviation traversals x {plain, m}' % ('11-13' if tier == 'quick' else '10-14')),
             Stage('injectivity of canonical strings', injective_driver, None, 'D(<=%d,2): canonical string -> brute-force canonical code is a function; stereo family pairs vs RDKit' % (5 if tier == 'quick' else 6))]
 
 
@@ -293,7 +411,17 @@ def replay(rec):
     tag = rec['mol']
     if 'canonical string' in rec['key'] and 'receive' in rec['key']:
         return [{'key': rec['key']}]
-    if tag.startswith('n'):
+    if rec.get('atoms_stage'):
+        spec = {'atoms': [tuple(a) for a in rec['spec'][0]], 'bonds': [tuple(b) for b in rec['spec'][1]]}
+        m = M.to_chython(spec)
+        opt = rec.get('options', '')
+        if rec.get('script') is not None:
+            _, order, _ = chooser.run(m, opt, rec['script'])
+            text = chooser.run_full(m, opt, rec['script'])
+        else:
+            text, order = (format(m, opt) if opt else str(m)), list(m.__format__(opt, _return_order=True)[1])
+        compare_written(acc, m, text, list(order), opt, lambda what, **d: acc.fail('%s :: %s' % (what, d.get('options', ''))), None)
+    elif tag.startswith('n'):
         for spec in M.scope(5, 2):
             if spec['tag'] == tag:
                 check_molecule(acc, M.to_chython(spec), tag, None, limit=150)
